@@ -280,14 +280,20 @@ func runC15(c *eng.Ctx) {
 			ok := len(got) == 3 && eng.Param("subject")(got[0]) && eng.Param("object")(got[1]) && eng.Param("action")(got[2])
 			c.Check(ok, "Enforce arguments", c.Pos(call), "Enforce(subject, object, action)", "Enforce is not called with exactly (subject, object, action)")
 			// result returned unchanged
-			okRet := false
+			// every way out answers with what Enforce said for this very question: a return that answers from anywhere else
+			// (a remembered decision, a constant) is a decision the current policy did not make
+			okRet, nRet := true, 0
 			for _, r := range eng.Returns(fn) {
 				if len(eng.RetVals(r)) == 2 {
+					nRet++
 					e0, ok0 := retSource(eng.RetVals(r)[0]).(*ssa.Extract)
 					e1, ok1 := retSource(eng.RetVals(r)[1]).(*ssa.Extract)
-					okRet = ok0 && ok1 && e0.Tuple == call && e1.Tuple == call && e0.Index == 0 && e1.Index == 1
+					if !(ok0 && ok1 && e0.Tuple == call && e1.Tuple == call && e0.Index == 0 && e1.Index == 1) {
+						okRet = false
+					}
 				}
 			}
+			okRet = okRet && nRet > 0
 			c.Check(okRet, "enforcePolicy result", p.Pos(fn.Pos()), "returns Enforce's (bool, error) unchanged", "enforcePolicy does not return Enforce's results unchanged")
 		}
 	}
